@@ -39,4 +39,11 @@ def spec : Query → List Int → Res
   | .xafter t n inc, L => .list (takeAfter L t n inc)
   | .between a b inc, L => .list (sublistBetween L a b inc)
 
+/-- what a finished consumer must hold: list semantics on `src` when the generator ends normally; what the
+    uncached object gives when it raises -/
+def specE (q : Query) (src : List Int) : Option PyErr → Res
+  | none => spec q src
+  | some e => if stops q src then spec q src else .err e
+
+
 end Queries
